@@ -78,11 +78,11 @@ def es_configs(tier, seed=0):
 def make_rig(cfg, transport='udp', fill=None, T=1, R=0, ka=False, ctx=None, keep_world=False):
     fam = cfg['family']
     if fam == 'ES':
-        dev = EsDevice(firmware=cfg.get('firmware', b'1414E'), serial=serial_for(cfg['tag']))
+        dev = EsDevice(firmware=cfg.get('firmware', b'1414E'), serial=serial_for(cfg['tag']), unit=cfg.get('comm_addr') or 0xF7)
         if fill:
             for i in range(len(dev.runtime)):
                 dev.runtime[i] = fill(i) & 0xFF
-        return Rig('ES', dev, transport, T, R, ka, ctx, keep_world=keep_world)
+        return Rig('ES', dev, transport, T, R, ka, ctx, keep_world=keep_world, comm_addr=cfg.get('comm_addr', 0))
     dev = ModbusDevice(unit=cfg.get('comm_addr') or (0xF7 if fam == 'ET' else 0x7F), **({'fill': fill} if fill else {}))
     dev.mbap_length = cfg.get('mbap_length', 'correct')
     dev.refuse_mode = cfg.get('refuse_mode', 'touch')
